@@ -16,7 +16,7 @@ REGRESS_TARGETS = {
     'C01-limit-spacers-drops-tags': ['C01'], 'C01-other-posts-reorders-tags': ['C01'], 'C02-reconcile-drops-content': ['C02'],
     'C03-spacer-equals-word': ['C03'], 'C04-C17-sort-key-not-injective': ['C04', 'C17'], 'C04-stale-opcode': ['C04'],
     'C06-C13-reserved-query-params-win': ['C06', 'C13'], 'C10-links-html-unescaped': ['C10'], 'C11-case-sensitive-media-type': ['C11'],
-    'C12-non-text-codec-500': ['C12'], 'C01-button-split-in-two': ['C01'], 'C09-li-replace-rewrites-scripts': ['C09'], 'C15-iframe-text-is-raw': ['C15', 'C01'], 'C09-deleted-svg-script-still-runs': ['C09'], 'C12-C06-charset-label-swallows-parameters': ['C12', 'C06'], 'C10-C14-svg-title-taken-for-page-title': ['C10', 'C14'], 'C01-leading-noscript-emptied': ['C01'], 'C20-workers-ignore-sigterm': ['C20'], 'C13-empty-hash-skips-check': ['C13'], 'C14-other-posts-indexerror': ['C14'],
+    'C12-non-text-codec-500': ['C12'], 'C01-button-split-in-two': ['C01'], 'C09-li-replace-rewrites-scripts': ['C09'], 'C15-iframe-text-is-raw': ['C15', 'C01'], 'C09-deleted-svg-script-still-runs': ['C09'], 'C12-C06-charset-label-swallows-parameters': ['C12', 'C06'], 'C10-C14-svg-title-taken-for-page-title': ['C10', 'C14'], 'C01-leading-noscript-emptied': ['C01'], 'C20-workers-ignore-sigterm': ['C20'], 'C04-origin-folds-query-case': ['C04'], 'C13-empty-hash-skips-check': ['C13'], 'C14-other-posts-indexerror': ['C14'],
 }
 
 
